@@ -210,3 +210,92 @@ func ruleTileRounding(c *Ctx) {
 	}
 	c.R.Floor("H6-tile-rounding", n, 2)
 }
+
+// ruleVertexProvenance (H2): a simplifier only drops vertices.  In every
+// simplify method, each store into an element of the line stores a value loaded
+// from an element of the same line (vertices are moved, never computed), and
+// every returned line is the input or a reslice of it.
+func ruleVertexProvenance(c *Ctx) {
+	p := c.P
+	c.R.Rule("H2: in each simplifier's simplify method every store to ls[k] stores a value loaded from ls[j] of the same slice (SSA dataflow through phis), and the returned line is ls or a reslice of ls: outputs are input vertices in input order storage")
+	n := 0
+	for _, fn := range p.FuncsIn(orbPath + "/simplify") {
+		if fn.Name() != "simplify" || fn.Signature.Recv() == nil || len(fn.Params) < 2 {
+			continue
+		}
+		key := ShortKey(FuncKey(fn))
+		var ls ssa.Value
+		for _, par := range fn.Params {
+			if p.KindOf(par.Type()) == "LineString" {
+				ls = par
+			}
+		}
+		if ls == nil {
+			continue
+		}
+		fromLine := func(v ssa.Value) bool {
+			seen := map[ssa.Value]bool{}
+			var ok func(v ssa.Value) bool
+			ok = func(v ssa.Value) bool {
+				if seen[v] {
+					return true
+				}
+				seen[v] = true
+				switch x := v.(type) {
+				case *ssa.UnOp:
+					if x.Op == token.MUL {
+						if ia, isIA := x.X.(*ssa.IndexAddr); isIA && ia.X == ls {
+							return true
+						}
+					}
+				case *ssa.Phi:
+					for _, e := range x.Edges {
+						if !ok(e) {
+							return false
+						}
+					}
+					return true
+				}
+				return false
+			}
+			return ok(v)
+		}
+		ord := 0
+		for _, b := range fn.Blocks {
+			for _, in := range b.Instrs {
+				switch x := in.(type) {
+				case *ssa.Store:
+					ia, isIA := x.Addr.(*ssa.IndexAddr)
+					if !isIA || ia.X != ls {
+						continue
+					}
+					n++
+					cons := fmt.Sprintf("%s#store#%d", key, ord)
+					ord++
+					if fromLine(x.Val) {
+						c.R.OK("H2-vertex-provenance", cons, p.InstrPos(x), "an input vertex is moved")
+					} else {
+						c.R.Bad("H2-vertex-provenance", cons, p.InstrPos(x), "a value that is not one of the line's own vertices is stored into the line: the output is no longer a subsequence of the input")
+					}
+				case *ssa.Return:
+					if len(x.Results) == 0 {
+						continue
+					}
+					r := x.Results[0]
+					n++
+					cons := fmt.Sprintf("%s#return@%d", key, b.Index)
+					okRet := r == ls
+					if sl, isSl := r.(*ssa.Slice); isSl && sl.X == ls {
+						okRet = true
+					}
+					if okRet {
+						c.R.OK("H2-vertex-provenance", cons, p.InstrPos(x), "returns the input line or a reslice of it")
+					} else {
+						c.R.Bad("H2-vertex-provenance", cons, p.InstrPos(x), "the returned line is not the input or a reslice of it")
+					}
+				}
+			}
+		}
+	}
+	c.R.Floor("H2-vertex-provenance", n, 9)
+}
